@@ -40,6 +40,7 @@ META.update({
     "C14": _m("Recorded serializations, five-way round trips and mutated documents are accepted only if they match the specification's encoder (EncValue/EncFields/EncLists) and type-directed decoder (DecValue/DecEntries as a left-to-right fold); no panic, no wrong-typed value stored.", "DESIGN.md section 6 C14"),
     "C15": _m("All types up to the depth bound are enumerated by TLC (pack/unpack inverse checked in-model) and every encoding produced by the engine and the C API is compared with the model's; over-deep descriptors and scheme JSON (duplicates, escapes, four entry points) are validated as traces.", "DESIGN.md section 6 C15"),
     "C18": _m("Stress exploration judged by the specification: the latch/immutability design is model-checked (WfConcurrent), and every result observed by every thread for every (filter, context) pair must equal the sequential meaning EvalFilter computed by TLC; first-use races are provoked in fresh processes.", "DESIGN.md section 6 C18", "Schedules inside std/regex-automata cannot be controlled; the check detects result-changing races and shared mutable state, not benign data races."),
+    "C20": _m("The last-error protocol is an explicit TLA+ state machine (model-checked for thread-locality and well-formedness); recorded C API sessions on concurrent threads are accepted by the trace specification only if every call's status and output equal the Rust API's on twin objects and the per-thread last-error state evolves as specified.", "DESIGN.md section 6 C20", "Trusted: TLC; the harness's twin bookkeeping (same inputs to both APIs); the C API is exercised through the Rust rlib, not through a C compiler."),
     "C19": _m("The catcher is an explicit N-thread TLA+ state machine; TLC checks balance, own-message, escape and isolation over all bounded scripts and interleavings, and every terminal behaviour is replayed on real threads with the level read through the verification hook after each step.", "DESIGN.md section 6 C19", "Trusted: TLC, the script interpreter of the harness (closure nesting = bracket structure), the turn token that serialises two-thread steps. Abort mode is modelled but not executed."),
     "C16": _m("All bounded registration histories are enumerated on the abstract registry (Unique and failed-add-is-a-no-op checked in-model) and replayed on SchemeBuilder with exhaustive probes of the built scheme; random long histories are validated as traces.", "DESIGN.md section 6 C16"),
     "C17": _m("`in $name` executions are accepted only if they equal the matcher's answer in the model; list-name validity and per-type registration decide the parse verdict.", "DESIGN.md section 6 C17"),
